@@ -641,6 +641,13 @@ def read_script(text):
     s = Script()
     rd = Reader(s)
     for c in read_all(text):
+        run_command(s, rd, c)
+    return s
+
+
+def run_command(s, rd, c):
+    """Executes one command s-expression on the script state (static checks included)."""
+    if True:
         _need(isinstance(c, list) and c and is_sym(c[0]), "command expected, got %r" % (c,))
         name = c[0].text
         _need(name in KNOWN_COMMANDS, "unknown command %s" % name)
@@ -732,7 +739,6 @@ def read_script(text):
             raise SmtError("command %s not covered by the reference reader" % name, unsupported=True)
         else:
             s.commands.append((name, tuple(c[1:])))
-    return s
 
 
 # ------------------------------------------------------------------------------------------- evaluation
